@@ -1,0 +1,34 @@
+//go:build verif
+
+package primitives
+
+// Contracts for the deductive checks in /verif (comment-only; compiled only with -tags verif).
+
+// ---- C01 breadth: frame-only contracts ("modifies nothing": every store / append / copy / map write
+// targets memory allocated by the call itself; no functional postcondition is claimed here) ----
+//@ func Circle.ToMesh frameonly
+//@   props C01
+//@ func Cone.ToMesh frameonly
+//@   props C01
+//@ func rotate frameonly
+//@   props C01
+//@ func DefaultCubeUVs frameonly
+//@   props C01
+//@ func UnitCube frameonly
+//@   props C01
+//@ func Cube.UnweldedQuads frameonly
+//@   props C01
+//@ func Cube.Welded frameonly
+//@   props C01
+//@ func Cube.calcUVs frameonly
+//@   props C01
+//@ func Cylinder.ToMesh frameonly
+//@   props C01
+//@ func Hemisphere.UV frameonly
+//@   props C01
+//@ func Quad.ToMesh frameonly
+//@   props C01
+//@ func UVSphere frameonly
+//@   props C01
+//@ func UVSphereUnwelded frameonly
+//@   props C01
